@@ -354,3 +354,20 @@ spec("C05",
      assumptions=["tolerance 2e-4 relative to the magnitude of the chain-rule terms for derivative lanes, 1e-4 for values, 2e-3 for the symbolic derivative (evaluated in f32)",
                   "the derivative theorems over the reals (GradSound) are in progress; the theorem here covers the value lane for every tape"],
      )
+
+spec("C12",
+     cmd="c12", count=dict(quick=1000, thorough=20000),
+     vo_targets=["props/C12.vo"],
+     level="proof",
+     rule="half of the cases: random sequences (5-70 calls) of Context constructor calls (var / constant from {0,-0,1,-1,2,0.5,inf,NaN,denormal,...} / every unary / every binary builder; operands recent, random, equal, occasionally out of range) — returned nodes and the whole arena compared with the Coq Context model; other half: random Trees (2-25 ops, shared subtrees, special constants) imported into a fresh Context — node and arena compared with the model, value compared with an independent operation-by-operation evaluation of the unrewritten tree at 4 assignments, dedup (import twice), import(export(n)) = n, Eq/Hash of equal trees; once per run a 10^6-deep tree is built, compared, hashed, imported, exported, remapped and dropped on a 256 KiB stack in a child process; distinct_nontrivial = distinct case lines",
+     classify=classify_default,
+     assumptions=["hash opcodes (rand/mix) are excluded from the generated expressions: folding them over a NaN constant depends on NaN payload bits, which the model does not carry"],
+     )
+spec("C13",
+     cmd="c13", count=dict(quick=1000, thorough=20000),
+     vo_targets=["props/C13.vo"],
+     level="proof",
+     rule="random Trees with 1-6 remaps (remap_xyz by arbitrary expressions, remap_affine by translations / non-uniform scales incl. negative / rotations / general affine matrices; consecutive affines exercise the flattening; shared subtrees under several frames; free variables) imported into a fresh Context: node and arena compared with the Coq model of Context::import, and the value compared with the substitution semantics evaluated directly on the tree at 4 points; distinct_nontrivial = distinct case lines",
+     classify=classify_default,
+     assumptions=["nested RemapAffine directly under RemapAffine cannot be built through the builder API (remap_affine flattens) and is not generated"],
+     )
